@@ -472,6 +472,21 @@ func c10StateAccept(c *Ctx) {
 			}
 		}
 	})
+	if !derived {
+		// or handed in by the caller: stateFromReader(r, len(l.chunks))
+		for _, g := range c.subjects() {
+			for _, call := range calls(g, func(string) bool { return true }) {
+				if call.Common().StaticCallee() != fn {
+					continue
+				}
+				for _, a := range call.Common().Args {
+					if hasOrigin(a, func(o string) bool { return o == "len:field:sparseFileLoader.chunks" }) {
+						derived = true
+					}
+				}
+			}
+		}
+	}
 	c.verdict(derived, "sparseFileLoader.stateFromReader:chunk-count", fn.Pos(), "the expected length is computed from len(l.chunks)", "the expected state length is not derived from the number of chunks")
 }
 
